@@ -48,6 +48,16 @@ def obs_plain(obs):
         return float(obs)
 
 
+def strip_volumes(x):
+    """drop the float traffic accounting from a state: its last digits depend on serialised timestamps (wall clock); what
+    agents see of it -- the traffic and load bands -- is compared through the observation."""
+    if isinstance(x, dict):
+        return {k: strip_volumes(v) for k, v in x.items() if k not in ("traffic", "current_load")}
+    if isinstance(x, list):
+        return [strip_volumes(v) for v in x]
+    return x
+
+
 def digest(x):
     return hashlib.md5(json.dumps(x, sort_keys=True, default=str).encode()).hexdigest()[:16]
 
@@ -114,7 +124,7 @@ def main():
     n = A.action_space.n
     table = {}
     out = sys.stdout
-    out.write(json.dumps({"t": -1, "episode_counter": A.episode_counter, "state": digest(world.norm_state(A.game.simulation.describe_state(), table)),
+    out.write(json.dumps({"t": -1, "episode_counter": A.episode_counter, "state": digest(strip_volumes(world.norm_state(A.game.simulation.describe_state(), table))),
                           "obs": digest(world.norm_state(obs_plain(obs), table))}) + "\n")
     for t in range(spec["steps"]):
         if B is not None and other["when"] == "interleaved":
@@ -124,7 +134,7 @@ def main():
                 B.reset(seed=None if quiet else 3)
         a = arng.randrange(n)
         obs, rew, term, trunc, info = A.step(a)
-        st = world.norm_state(A.game.simulation.describe_state(), table)
+        st = strip_volumes(world.norm_state(A.game.simulation.describe_state(), table))
         rec = {"t": t, "a": a, "obs": digest(world.norm_state(obs_plain(obs), table)), "rew": repr(float(rew)), "state": digest(st),
                "nodes": {k: digest(v) for k, v in st.get("network", {}).get("nodes", {}).items()}}
         out.write(json.dumps(rec, sort_keys=True) + "\n")
